@@ -84,10 +84,17 @@ def pool():
     return _POOL
 
 
-def shutdown_pool():
+def shutdown_pool(kill=False):
     global _POOL
     if _POOL is not None:
+        procs = list(getattr(_POOL, "_processes", {}).values())
         _POOL.shutdown(wait=False, cancel_futures=True)
+        if kill:
+            for p in procs:
+                try:
+                    p.kill()
+                except Exception:
+                    pass
         _POOL = None
 
 
@@ -113,7 +120,11 @@ def pmap(fn, items, timeout=900, chunksize=1, deadline=None):
     out = []
     try:
         for f in futs:
-            st, r = f.result()
+            try:
+                st, r = f.result(timeout=(timeout or 3000) + 120)
+            except cf.TimeoutError:
+                shutdown_pool(kill=True)
+                raise HarnessError("a worker did not answer within %d s (stuck or dead worker); nothing is concluded" % ((timeout or 3000) + 120))
             if st == "skip":
                 out.append(None)
             elif st != "ok":
